@@ -322,17 +322,20 @@ public:
 
     static Interval sin(const Interval& a)
     {
-        return Interval(boost::numeric::sin(a.i), a.maybe_nan);
+        return Interval(boost::numeric::sin(a.i), a.maybe_nan ||
+                        std::isinf(a.lower()) || std::isinf(a.upper()));
     }
 
     static Interval cos(const Interval& a)
     {
-        return Interval(boost::numeric::cos(a.i), a.maybe_nan);
+        return Interval(boost::numeric::cos(a.i), a.maybe_nan ||
+                        std::isinf(a.lower()) || std::isinf(a.upper()));
     }
 
     static Interval tan(const Interval& a)
     {
-        return Interval(boost::numeric::tan(a.i), a.maybe_nan);
+        return Interval(boost::numeric::tan(a.i), a.maybe_nan ||
+                        std::isinf(a.lower()) || std::isinf(a.upper()));
     }
 
     static Interval asin(const Interval& a)
